@@ -19,11 +19,8 @@ from sa.report import Report
 FUSION = "teaal.ir.fusion.Fusion"
 
 # reviewed exemption (by class name, with reason)
-S8_EXEMPT = {
-    "MergerComponent": "on the pinned tree mergers derive from Component, not FunctionalComponent, although "
-                       "the FunctionalComponent docstring lists them; the property speaks of functional "
-                       "components as the code classifies them, so this is recorded as an observation "
-                       "(DESIGN.md section 4), not as a violation",
+S8_EXEMPT: Dict[str, str] = {
+    # (MergerComponent was exempted here until finding F13 made it a FunctionalComponent)
 }
 
 
@@ -656,6 +653,8 @@ def mutants(db: DB):
     dec = ("if config == self.curr_config and fused_ranks == self.fused_ranks and not "
            "self.components_used.intersection(\n                components_used):")
     return [
+        M("revert F13 fix (mergers are not functional components)", "teaal/ir/component.py",
+          "class MergerComponent(FunctionalComponent):", "class MergerComponent(Component):", "S8"),
         M("reported blocks sorted", "teaal/trans/collector.py",
           "        blocks = TransUtils.build_expr(self.fusion.get_blocks())",
           "        blocks = TransUtils.build_expr(sorted(self.fusion.get_blocks()))", "S9"),
